@@ -53,3 +53,14 @@ double AbstractHmmLikelihood::getSecondOrderDerivative(const std::string& variab
   }
   return -d2LogLik_;
 }
+
+void AbstractHmmLikelihood::checkBreakPoints_(const std::vector<size_t>& breakPoints, size_t nbSites)
+{
+  for (size_t i = 0; i < breakPoints.size(); ++i)
+  {
+    if (breakPoints[i] == 0 || breakPoints[i] >= nbSites)
+      throw Exception("HmmLikelihood::setBreakPoints. A break point must be a position between 1 and the number of positions - 1.");
+    if (i > 0 && breakPoints[i] <= breakPoints[i - 1])
+      throw Exception("HmmLikelihood::setBreakPoints. Break points must be in strictly increasing order.");
+  }
+}
